@@ -11,3 +11,5 @@ require (
 	golang.org/x/mod v0.22.0 // indirect
 	golang.org/x/sync v0.10.0 // indirect
 )
+
+require github.com/agnivade/levenshtein v1.1.1
